@@ -315,6 +315,13 @@ theorem Acc_stepBody (op : ValueLedger.LOp) (env : LEnv) (ht : op.target.root < 
   | removeIdx t i => exact here t _ ht (Good_removeIdxL i)
   | reset t => exact here t _ ht (Good_replaceBy_empty _ (by simp))
   | compress t => exact here t _ ht Good_compressL
+  | clear t => exact here t _ ht Good_clearL
+  | reserve t k n =>
+    simp only [stepBody]
+    refine Acc.bindF (ownedEnv env) (Acc_reserveL k n) (by perm_count) (fun r => ?_)
+    cases r with
+    | none => exact (here t _ ht Good_pure).permPre (by simp [optOwned])
+    | some x => exact (Acc_onTargetL env t (replaceBy x) (owned x) (Good_replaceBy x) ht).permPre (by simp [optOwned]; perm_count)
 
 theorem Acc_stepL (op : ValueLedger.LOp) (env : LEnv) : Acc (stepL op env) (ownedEnv env) (fun env' => ownedEnv env') := by
   unfold stepL
